@@ -52,7 +52,7 @@ struct PropAgg {
 fn family_props(f: &str) -> &'static [&'static str] {
     match f {
         "A" => &["C01", "C02", "C03", "C07", "C08", "C18"],
-        "B" => &["C04", "C15", "C01", "C02", "C18", "C14", "C05"],
+        "B" => &["C04", "C15", "C01", "C02", "C18", "C14", "C05", "C13"],
         "C" => &["C05", "C06", "C02", "C18"],
         "D" => &["C09", "C10", "C14", "C16", "C03", "C07", "C04"],
         "E" => &["C11", "C01", "C18"],
